@@ -11,6 +11,7 @@ import warnings
 
 from ..ctx import Workload
 from ..gen import corrupt
+from ..gen import values as V
 from ..gen.objects import ObjGen
 from ..oracles import validator
 from ..spec import model as M
@@ -875,7 +876,83 @@ def prime_ts(text):
     return bool(prime.TS_RE.match(text))
 
 
+REDECLARED = ["granular_markings", "object_marking_refs", "extensions", "external_references", "labels", "created_by_ref", "lang", "confidence"]
+REDECLARED_VALUES = [["a"], "abc", 5, {"k": "v"}, [{"selectors": ["val"], "marking_ref": "marking-definition--34098fce-860f-48ae-8e50-ebd3cc5e41da"}], [5], [["a"]], True, [], {}, None, "", 0]
+
+
+def wl_redeclared(ctx, rng, i):
+    """Custom types which declare, as a property of their own and in a shape of their own, a name the library gives a meaning to on
+    other types (granular_markings, object_marking_refs, extensions, ...): content of such a type is judged by the declared property,
+    and whatever is wrong with it is reported through the error family."""
+    import stix2
+    from stix2 import properties as P
+    special = REDECLARED[i % len(REDECLARED)]
+    shape = ["strings", "string", "integer", "dictionary"][(i // len(REDECLARED)) % 4]
+    kind, ver = [("observable", "2.0"), ("marking", "2.0"), ("marking", "2.1"), ("extension", "2.1"), ("extension", "2.0"), ("observable", "2.1"), ("object", "2.1"), ("object", "2.0")][(i // (len(REDECLARED) * 4)) % 8]
+    mod = stix2.v20 if ver == "2.0" else stix2.v21
+    prop = {"strings": lambda: P.ListProperty(P.StringProperty), "string": P.StringProperty, "integer": P.IntegerProperty, "dictionary": lambda: P.DictionaryProperty(spec_version=ver)}[shape]()
+    name = "x-stixmon-c17r-%s-%s-%s%s" % (kind[:3], special.replace("_", "")[:12], shape[:3], ver.replace(".", "")) + ("-ext" if kind == "extension" else "")
+    done = ctx.state.setdefault("redeclared", {})
+    w = {"version": ver, "kind": kind, "type": name, "redeclared_property": special, "declared_as": shape}
+    if name not in done:
+        props = [(special, prop), ("val", P.StringProperty())]
+        try:
+            with warnings.catch_warnings():
+                warnings.simplefilter("ignore")
+                body = type("Body", (object,), {})
+                if kind == "observable":
+                    done[name] = mod.CustomObservable(name, props)(body) if ver == "2.0" else mod.CustomObservable(name, props, ["val"])(body)
+                elif kind == "marking":
+                    done[name] = mod.CustomMarking(name, props)(body)
+                elif kind == "object":
+                    done[name] = mod.CustomObject(name, props)(body)
+                else:
+                    done[name] = mod.CustomExtension(name, props)(body) if ver == "2.0" else mod.CustomExtension(name, props)(type("Body", (object,), {"extension_type": "property-extension"}))
+        except family():
+            done[name] = None
+        except Exception as e:
+            done[name] = None
+            ctx.violation("escape:%s@%s" % (type(e).__name__, where_raised(e)), "registering a %s %s declaring its own '%s' let %s escape" % (ver, kind, special, type(e).__name__), w)
+    if done[name] is None:
+        ctx.skip("registration declaring its own '%s' refused" % special)
+        return
+    ctx.count("redeclared_types_used")
+    ctx.see("redeclared", "%s:%s:%s:%s" % (kind, ver, special, shape))
+    ts, u = "2020-01-01T00:00:00.000Z", V.uuid_text(rng, 4)
+    for v in rng.sample(REDECLARED_VALUES, 5):
+        inner = {"val": "v"}
+        if v is not None or rng.random() < 0.5:
+            inner[special] = v
+        if kind == "observable":
+            sco = dict({"type": name}, **inner)
+            if ver == "2.1":
+                content = dict(sco, spec_version="2.1", id="%s--%s" % (name, u))
+            else:
+                content = {"type": "observed-data", "id": "observed-data--" + u, "created": ts, "modified": ts, "first_observed": ts, "last_observed": ts, "number_observed": 1, "objects": {"0": sco}}
+            extra = [("parse_observable", lambda: stix2.parse_observable(json.loads(json.dumps(sco)), version=ver)),
+                     ("parse_observable/lenient", lambda: stix2.parse_observable(json.loads(json.dumps(sco)), allow_custom=True, version=ver))]
+        elif kind == "marking":
+            content = dict({"type": "marking-definition", "id": "marking-definition--" + u, "created": ts, "definition_type": name, "definition": inner}, **({"spec_version": "2.1"} if ver == "2.1" else {}))
+            extra = []
+        elif kind == "object":
+            content = dict({"type": name, "id": "%s--%s" % (name, u), "created": ts, "modified": ts}, **inner)
+            if ver == "2.1":
+                content["spec_version"] = "2.1"
+            extra = []
+        else:
+            f = {"type": "file", "name": "f", "extensions": {name: inner}}
+            content = dict(f, spec_version="2.1", id="file--" + u) if ver == "2.1" else \
+                {"type": "observed-data", "id": "observed-data--" + u, "created": ts, "modified": ts, "first_observed": ts, "last_observed": ts, "number_observed": 1, "objects": {"0": f}}
+            extra = []
+        ww = dict(w, input=content)
+        for rname, fn in [("parse strict", lambda: stix2.parse(json.loads(json.dumps(content)), version=ver)), ("parse lenient", lambda: stix2.parse(json.loads(json.dumps(content)), allow_custom=True)),
+                          ("parse text", lambda: stix2.parse(json.dumps(content))), ("memory store", lambda: stix2.MemoryStore(allow_custom=True).add(json.loads(json.dumps(content))))] + extra:
+            observe(ctx, "redeclared %s via %s" % (special, rname), fn, ww)
+        ctx.nontrivial("redeclared", kind, ver, special, shape, json.dumps(v))
+
+
 WORKLOADS = [
+    Workload("redeclared-names", wl_redeclared, quick=256, thorough=2560),
     Workload("ref-named-properties", wl_ref_names, quick=308, thorough=1540),
     Workload("toplevel-extensions", wl_toplevel, quick=96, thorough=4800),
     Workload("faults", wl_faults, quick=lambda: len(BASES), thorough=lambda: len(BASES) * 6, exhaustive=True),
